@@ -31,7 +31,7 @@ SliceNext ==
     \/ ~up[1] /\ ncrash = 2 /\ up[3] /\ coord[NewTx].phase = "none" /\ ClientWrite(NewTx, 2)
     \/ coord[NewTx].phase # "none" /\ \E m \in msgs : RecvReplicate(m, FALSE) \/ RecvReply(m) \/ RecvConfirm(m, FALSE)
     \/ coord[NewTx].phase = "replicating" /\ NoneInFlight /\ GiveUp(NewTx)
-SliceSpec == Init /\ [][SliceNext]_vars
+SliceSpec == Init /\ [][SliceNext /\ CCNext]_vars
 EmitSlice == (coord[NewTx].phase \in {"acked", "failed"} /\ NoneInFlight) =>
            PrintT(<<"REPLAY", ToJson([steps |-> h, rf |-> RF, streams |-> [t \in TxId |-> TxStream[t]], real_coordinator |-> NewTx,
                                       logs |-> [n \in Node |-> log[n]], cnts |-> [n \in Node |-> cnt[n]],
